@@ -182,6 +182,23 @@ check('C04', 'specs/Sighash.tla + harness/c04_sighash.py',
       'TLA+ symbolic binding model (TLC exhaustive) + state-by-state replay on real signed transactions with an independent SIGHASH_ALL/ECDSA verifier',
       'DESIGN.md 5/C04')
 
+check('C06', 'specs/HdKeys.tla + harness/c06_hdkeys.py',
+      'TLC exhaustively checks HdKeys.tla: a symbolic BIP32 key tree (every sequence of private derivation, neutering and public derivation up to '
+      'depth 3 (4/6 thorough) over hardened/normal indices 0, 1, 2^31-1, 2^31, 2^31+1, 2^32-1 and the out-of-range 2^32/-1, from the master key and '
+      'from imported keys at depth 254/255) satisfies N(CKDpriv(k,i)) = CKDpub(N(k),i), fails exactly for hardened-from-public/out-of-range/depth-256 '
+      'derivations, and Parse(Ext(k)) = k for the 78-byte layout; Base58 radix conversion round-trips on all byte strings <= 4 (6) bytes over boundary '
+      'values; Base58Check rejects every single-byte corruption, truncation and extension; the mnemonic numeral decodes to what it encodes; the '
+      'address-chain machine keeps chains contiguous, deterministic and restores the gap after any mark-used. Every TLC state is emitted as a case and '
+      'replayed on the real PrivateKey/PublicKey/from_extended_key_string/Base58/Mnemonic objects for 20 (24) seeds of 16-64 bytes and on two real '
+      'Accounts over real sqlite databases under a deterministic loop, comparing header bytes with the specified layout, both routes of each law, round '
+      'trips, rejections, returned addresses and gap state.',
+      'The numbers (HMAC-SHA512, secp256k1, SHA-256/RIPEMD-160, PBKDF2) are not expressible in TLA+: agreement with BIP32 is established by a differential '
+      'cross-check (an independent hmac/hashlib + pure-Python ecdsa interpretation of every term TLC emits, and the published BIP32 test vectors 1-4), '
+      'which is outside the model-checking claim. first4(SHA256d) treated as a perfect hash. Indices by classes, seeds by sampled lengths. All-zero Base58 '
+      'strings, BIP32 invalid-key vectors, non-English mnemonic loading are outside the claim.',
+      'TLA+/TLC symbolic-term and case-analytic model, exhaustive case emission replayed on the implementation, independent BIP32 interpreter as differential oracle',
+      'DESIGN.md 5/C06')
+
 NOT_YET = 'check not built yet in this round (design in DESIGN.md section 5); will be claimed once its driver exists'
 ALL = [f'C{i:02d}' for i in range(1, 21)]
 
